@@ -1113,7 +1113,25 @@ def r6_meta(run):
         yes = _truth_edges(cfg, is_meta, True, neg=is_not_meta)
         no = _truth_edges(cfg, is_meta, False, neg=is_not_meta)
         if not yes or not no:
-            raise AnchorError('%s: no test of req.method against self._META_METHODS' % q)
+            # moved into the responder selection?  Then it must cover EVERY selection (route, sink, static route, 404):
+            # a guard on the route-matched branch only lets WEBSOCKET-as-HTTP-method through to sinks and static routes
+            g = p.func(APP + '._get_responder')
+            gcfg = cfg_of(g, p)
+
+            def is_meta_local(e):
+                return (isinstance(e, ast.Compare) and len(e.ops) == 1 and isinstance(e.ops[0], ast.In)
+                        and any(is_self_attr(c, '_META_METHODS') for c in e.comparators))
+
+            tests = [n.id for n in gcfg.live_nodes() if n.kind == 'test' and any(is_meta_local(x) for x in walk_self(n.ast))]
+            if not tests:
+                raise AnchorError('%s: no test of req.method against self._META_METHODS' % q)
+            run.use_cfg(gcfg)
+            path = flow.find_path(gcfg, [gcfg.entry], [gcfg.exit], avoid_nodes=tests, edge_filter=flow.no_exc)
+            run.check(path is None, '%s: the meta-method rejection covers every responder selection (route, sink, static route, not found)' % tag,
+                      g, gcfg.node(tests[0]).ast, where='%s:%s' % (g.file, gcfg.node(tests[0]).lineno),
+                      witness=flow.describe_path(gcfg, path) if path else None,
+                      runtime_witness='an HTTP request with method WEBSOCKET to a path served by a sink or static route runs it instead of answering 400')
+            continue
         events = []
         for lab_ in ('REQ', 'ROUTE', 'RSRC', 'RESP'):
             events += af.nodes_labelled(lab_)
